@@ -71,10 +71,17 @@ type raceFinding struct {
 	Desc string
 }
 
-func analyseRaces(p symex.PathSummary) []raceFinding {
+// repoSite: the access is made by code of the repository (not by a harness file, not by a library).
+func repoSite(a symex.AccessRec) bool {
+	return strings.Contains(a.Site, "github.com/bolkedebruin/rdpgw/") && !strings.Contains(a.Site, "@zz_vp") && !strings.Contains(a.Site, ".vp") && !strings.Contains(a.Site, ".VP_")
+}
+
+func analyseRaces(p symex.PathSummary, bySite bool) []raceFinding {
 	var rel []symex.AccessRec
 	for _, a := range p.Access {
-		if raceRelevant(a) {
+		// default: the shared state of the protocol package; with //vp:flag lockset-repo-sites: every location
+		// that code of the repository touches (both accesses of a pair must be made by repository code)
+		if (!bySite && raceRelevant(a)) || (bySite && repoSite(a)) {
 			rel = append(rel, a)
 		}
 	}
@@ -92,6 +99,9 @@ func analyseRaces(p symex.PathSummary) []raceFinding {
 			loc := a.Typ
 			if loc == "" {
 				loc = a.Tag
+			}
+			if bySite && !strings.HasPrefix(a.Tag, "global:") {
+				loc = a.Tag + "@" + siteFuncOf(a.Site)
 			}
 			if strings.HasPrefix(a.Tag, "global:") {
 				loc = a.Tag
@@ -124,7 +134,7 @@ func locksetViolations(r *HarnessResult, tier string) {
 		if p.Model == nil {
 			continue
 		}
-		for _, f := range analyseRaces(p) {
+		for _, f := range analyseRaces(p, r.H.Flags["lockset-repo-sites"]) {
 			label := "race:" + shortLoc(f.Loc)
 			if seen[label] {
 				continue
@@ -166,4 +176,15 @@ func (n *Native) RunRace(vec map[string]interface{}, times int) string {
 	_, raw := n.Run(vs)
 	n.rawOut = false
 	return raw
+}
+
+
+func siteFuncOf(site string) string {
+	if i := strings.Index(site, "@"); i >= 0 {
+		site = site[:i]
+	}
+	if i := strings.LastIndex(site, "/"); i >= 0 {
+		site = site[i+1:]
+	}
+	return site
 }
